@@ -41,6 +41,7 @@ class Ctx:
         self.objs = {}         # id -> doer object / doist
         self.doist = None
         self.keep = []
+        self.efflog = []       # for the C06 oracle only (not compared with the model)
         self.live = set()      # schedulers past their enter and not yet exited
 
     def ev(self, kind, i):
@@ -52,12 +53,18 @@ class Ctx:
                 continue
             target = self.objs[e[1]]
             lst = [self.objs[j] for j in e[2]]
+            inv = {id(o): i for i, o in self.objs.items()}
+            rec = {"kind": e[0], "target": e[1], "ids": list(e[2]), "caller": caller, "start": len(self.log),
+                   "before": [inv.get(id(o), -1) for o in target.doers]}
+            self.efflog.append(rec)
             if e[0] == "ext":
                 target.extend(lst)
                 self.ev("ExtRet", caller)
             else:
                 target.remove(lst)
                 self.ev("RemRet", caller)
+            rec["end"] = len(self.log) - 1
+            rec["after"] = [inv.get(id(o), -1) for o in target.doers]
 
     def step(self, script, pc):
         return script[pc] if pc < len(script) else DEFAULT_STEP
@@ -267,6 +274,7 @@ def run_prog(prog):
         "tyme": float(doist.tyme).hex(),
         "scheds": scheds,
         "raised": raised,
+        "efflog": ctx.efflog,
     }
 
 
@@ -498,6 +506,9 @@ def gen_dynamic(rng, *, faults=False, always_p=0.5, tocks="dyadic"):
         if rng.random() < 0.5:
             k = rng.randint(1, 2)
             pool = [sp for sp in spares if home[sp] == target] + ([rng.choice(members[target])] if members[target] and rng.random() < 0.3 else [])
+            # never (re-)extend the running caller or one of its running ancestors: a second generator
+            # over the same doer object is outside the properties' quantifier
+            pool = [x for x in pool if x != caller and not _is_ancestor(p, x, caller)]
             if not pool:
                 continue
             ids = [rng.choice(pool) for _ in range(k)]
@@ -559,10 +570,6 @@ def shrink(case):
                 c = copy.deepcopy(case)
                 del c["defs"][i]["script"][j]["es"][k]
                 yield c
-    if case.get("limit") is not None:
-        c = copy.deepcopy(case); c["limit"] = None
-        # only safe when every script terminates: default step returns, so yes
-        yield c
 
 
 def distribution(cases, obs):
@@ -581,3 +588,59 @@ def distribution(cases, obs):
         d["raised"][o["raised"]] = d["raised"].get(o["raised"], 0) + 1
         d["events"] += len(o["trace"])
     return d
+
+
+# ----------------------------------------------------------------------------- shared oracle helpers
+
+def is_static(prog):
+    return not any(st["es"] for d in prog["defs"].values() if d["kind"] != "nest" for st in d["script"])
+
+
+def parents(prog):
+    """child id -> scheduler id (0 for root doers) for the initial forest."""
+    par = {i: 0 for i in prog["doers"]}
+    for i, d in prog["defs"].items():
+        if d["kind"] == "nest":
+            for k in d["kids"]:
+                par[k] = int(i)
+    return par
+
+
+def fl(h):
+    return float.fromhex(h)
+
+
+def reference_flat(prog):
+    """The documented cycle model for a FLAT static program without faults (a second, independent
+    statement of it in Python floats): returns list of (doer, tyme) recur steps, final tyme, done."""
+    tyme, tock = prog["tyme"], prog["tock"]
+    limit = abs(prog["limit"]) if prog["limit"] is not None else None
+    due, pc, out = {}, {}, []
+    order = []
+    for i in prog["doers"]:
+        sc0 = prog["defs"][str(i)]["script"]
+        o = sc0[0]["out"] if sc0 else ["r", "true"]
+        if o[0] == "y":
+            due[i] = tyme; pc[i] = 1; order.append(i)
+    stop = tyme + (limit if limit is not None else 0.0)
+    cycles = 0
+    while True:
+        cycles += 1
+        for i in list(order):
+            if due[i] <= tyme:
+                scr = prog["defs"][str(i)]["script"]
+                o = scr[pc[i]]["out"] if pc[i] < len(scr) else ["r", "true"]
+                pc[i] += 1
+                out.append((i, tyme))
+                if o[0] == "y":
+                    t = o[1]
+                    due[i] = (tyme + tock) if not t else due[i] + t
+                else:
+                    order.remove(i)
+        tyme += tock
+        if not order:
+            return out, tyme, True
+        if limit and tyme >= stop:
+            return out, tyme, False
+        if cycles > 400:
+            return out, tyme, None
